@@ -13,7 +13,7 @@ from vcore import (Undecided, Work, build_harness, run_tlc, tlc_stats, tlc_faile
                    run_harness, parallel, decode_case_line, validate_trace, load_known,
                    write_evidence, save_replay, NCPU)
 
-DEVS = '{"RgPt", "BwRev", "BwOrigin", "WrapSlice"}'
+DEVS = '{"RgPt", "BwRev", "BwOrigin", "WrapSlice", "RepairCp", "RepairJn"}'
 
 
 def consts_text(consts):
